@@ -20,6 +20,16 @@ CHECKS = {
    level_text='TLC judges every recorded execution against Trace_Uids.tla: each UID given out in a mailbox identity exceeds every UID ever given out there (also after expunging the highest), UIDNEXT from SELECT/EXAMINE/STATUS exceeds every UID existing at command start and is never above a UID assigned later, APPENDUID names the right UIDVALIDITY and exactly the UIDs under which that command\'s messages became visible, COPYUID pairs source and destination UIDs of identical content in order. Histories include RENAME (INBOX too), DELETE/CREATE of destinations, MOVE/COPY to self, concurrent appenders at every lock checkpoint.',
    level_note='Mailbox identity is the backend object behind a name (glass box). UIDVALIDITY freshness of a re-created name is assumed (16 random bits per second). Dict backend only so far: the maildir part (uidlist persistence across crash/restart) is not covered by this check yet.',
    design_ref='DESIGN.md section 7 C04'),
+ 'C05': dict(
+   technique='RFC 3501 section 3 connection automaton in TLA+ (Conn.tla) checked by TLC; every (state, input) pair of its graph plus seeded sequences executed on the real server with probe commands that reveal the state and a store snapshot before/after each input',
+   level_text='TLC checks the automaton\'s own clauses (refused command has no effect, failed SELECT deselects, CLOSE always OK and deselects, LOGOUT = BYE then OK) on every generated step and dumps the complete graph (92 state cores x 86 inputs). The harness drives the real server to every state by a shortest path, sends every input, compares the response class and the state reached (identified by probe sequences: LIST of a per-user marker mailbox, CAPABILITY, FETCH fingerprint, STORE probe for rw/ro) with the model, and compares a full snapshot of the store before/after every refused command; plus length-2 sequences, login + 3 random inputs, TLC -simulate behaviours and seeded walks up to 40 inputs, and the consecutive-BAD limit.',
+   level_note='Complete transition cover + state identification; complete under the usual assumption that the implementation has no more relevant states than the model. Where RFC 3501 leaves latitude between NO and BAD the model allows both. Dict backend.',
+   design_ref='DESIGN.md section 7 C05'),
+ 'C09': dict(
+   technique='authentication part of Conn.tla (IMAP and ManageSieve instances) checked by TLC; every (state, input) pair over credential classes x mechanisms x TLS/peer configurations executed on the real server, identity probed by per-user marker mailbox / script',
+   level_text='TLC checks on every generated step that auth changes only through an exchange whose credentials verify for an existing user and (authzid = authcid or admin role), that LOGIN is refused while LOGINDISABLED is advertised, and that failed, cancelled, malformed, empty or oversized exchanges leave auth unchanged. Every (state, input) pair of the IMAP (19 x 72) and ManageSieve (19 x 90) graphs is executed on the real server (local and remote peer, TLS required or not, before/after STARTTLS), with three provisioned users (two ordinary, one admin); after each input the identity is probed through marker mailboxes / LISTSCRIPTS; plus seeded sequences of failed and successful attempts.',
+   level_note='Trusted: TLC, the probes. Fake start_tls (no real TLS). Mechanisms: those SASLAuth.defaults() offers here (PLAIN, LOGIN). Dict backend (maildir Login differs only in where users are stored; not exercised).',
+   design_ref='DESIGN.md section 7 C09'),
  'C12': dict(
    technique='TLC checks the action property ReadOnlyInert on MailboxSync.tla; random programs of message commands issued inside a read-only selection on the real server (checkpoint-interleaved with observing sessions), glass-box dump after every tagged response, validated by TLC against the observer spec Trace_RO.tla',
    level_text='Design: on MailboxSync.tla TLC checks that no step of a session with a read-only selection changes the store. Code: one session EXAMINEs INBOX or SELECTs a backend-read-only mailbox and issues seeded random programs of every message command and UID variant (STORE incl. \\Recent, \\Seen-setting FETCH, EXPUNGE, UID EXPUNGE, COPY, MOVE, SEARCH, NOOP, CHECK, CLOSE) and APPEND/COPY/MOVE into the read-only mailbox, interleaved at every lock checkpoint with 0-2 observing sessions; after every tagged response a dump (UIDs, permanent flags, stored recent bits) is logged; TLC checks on each recorded execution that every dump equals the baseline, that STORE/EXPUNGE/deliveries into the read-only mailbox answer NO, and that CLOSE answers OK and deselects.',
@@ -40,6 +50,11 @@ CHECKS = {
    level_text='Design: TLC checks RecentOnce on MailboxSync.tla (a message\'s \\Recent lives in at most one place: the stored bit or one read-write selection). Code: every recorded execution is judged by TLC against Trace_Recent.tla: at most one read-write selection is ever shown \\Recent on a message; a message that arrived while no read-write selection existed is shown \\Recent to the first read-write selection made afterwards (read-only ones do not consume it); the RECENT count given agrees with the flags seen after a full FETCH; FETCH data received during the session\'s own STORE never changes \\Recent. Arrival time is taken from the store (glass box) so that the order of arrival and selection is exact; where a SELECT is in flight at arrival nothing is demanded.',
    level_note='Trusted: TLC, strict response parser, glass-box read of the store for arrival instants. A selection = one SELECT/EXAMINE until the next SELECT/CLOSE/logout. Dict backend only; maildir (claim_recent generator defect known from reading) not covered yet. One open known finding (StaleRecentPick) needs a lock acquisition to suspend.',
    design_ref='DESIGN.md section 7 C17'),
+ 'C19': dict(
+   technique='ManageSieve reference model in TLA+ (Sieve.tla: gate + per-user name->bytes map with active name) checked by TLC; every edge of its state graph and seeded -simulate behaviours replayed on the real ManageSieve listener with response, LISTSCRIPTS/GETSCRIPT probes of both users and authentication state compared after every step',
+   level_text='TLC checks the model\'s invariants (at most one active, active is stored, users isolated, no effect before authentication, PUT then GET, RENAME keeps content and active status, active not deletable) and dumps the graph; every edge (about 45k after pruning RFC latitude the server does not take) is replayed on the real server with three connections and two probe connections, comparing after EVERY step the parsed response, both users\' script maps and the authentication state; plus 160 (quick) / 8000 (thorough) simulated behaviours of the full scope and a byte sweep over 10 name families and 13 content families in quoted and literal spellings.',
+   level_note='Own strict RFC 5804 response parser. Latitude (response codes, whether a non-compiling script is stored, foreign authzid) is modelled as sets of allowed results; the alternative the server takes is measured and then held. Dict backend filter set.',
+   design_ref='DESIGN.md section 7 C19'),
  'C20': dict(
    technique='TLA+ model of asyncio.Lock + the read-write lock checked by TLC; every edge of the state graph replayed on the real lock; recorded executions validated by TLC trace specs',
    level_text='TLC explores every interleaving and one cancellation at any step for 3 tasks x programs of <=2 acquisitions (exclusion, counter exactness, clean at end, deadlock freedom, progress under fairness); every edge of that graph is executed on the real lock object with the full abstract state compared after each step, and every recorded execution (replays + seeded random walks) is judged by TLC against the observer spec whose guards are the clauses of the property.',
